@@ -66,6 +66,20 @@ mut("c01-counter-not-advanced", "C01", "pybrops/breed/prot/mate/SelfCross.py", "
 mut("c01-xoprob-not-carried", "C01", "pybrops/breed/prot/mate/ThreeWayDHCross.py", "            vrnt_xoprob = pgmat.vrnt_xoprob,", "            vrnt_xoprob = pgmat.vrnt_xoprob * 1.0 if pgmat.nvrnt < 9 else pgmat.vrnt_xoprob[::-1].copy(),", "crossover probabilities reversed in progeny with >= 9 markers")
 mut("c01-parent-mutated", "C01", "pybrops/breed/prot/mate/FourWayCross.py", "        geno = pgmat.mat\n", "        geno = pgmat.mat\n        if len(xconfig) == 5: geno[0,0,0] = geno[1,0,0]\n", "parent matrix written when there are exactly 5 crosses")
 
+# ---------------------------------------------------------------- C08
+PR = "pybrops/core/random/prng.py"
+mut("c08-seed-skips-numpy", "C08", PR, "    numpy.random.seed(py_random.randint(0, 2**32-1))    # seed numpy.random with 4 bytes of entropy", "    py_random.randint(0, 2**32-1)", "seed() no longer seeds numpy.random")
+mut("c08-seed-zero-is-none", "C08", PR, "    py_random.seed(s)                                   # seed random module", "    py_random.seed(s or None)", "seed(0) treated as seed(None)")
+mut("c08-spawn-os-entropy", "C08", PR, "        out = [Generator(BitGenerator(py_random.randint(0, 2**sbits-1))) for _ in range(n)]", "        out = [Generator(BitGenerator(py_random.randint(0, 2**sbits-1))) for _ in range(n-1)] + [numpy.random.default_rng()] if n else []", "last spawned stream seeded from OS entropy")
+mut("c08-meiosis-global", "C08", "pybrops/breed/prot/mate/util.py", "    rnd = rng.uniform(0, 1, gshape)", "    rnd = numpy.random.uniform(0, 1, gshape)", "meiosis draws from the global stream although given rng")
+mut("c08-pheno-err-global", "C08", "pybrops/breed/prot/pt/G_E_Phenotyping.py", "err_effect = self.rng.multivariate_normal(err_mean, err_cov, ntaxa)", "err_effect = numpy.random.multivariate_normal(err_mean, err_cov, ntaxa)", "error term from the global stream")
+mut("c08-outcross-global-shuffle", "C08", "pybrops/core/random/sampling.py", "        rng.shuffle(exchix)                     # shuffle exchange indices", "        global_prng.shuffle(exchix)", "outcross_shuffle shuffles with the global stream")
+mut("c08-revert-pymoo-seed", "C08", "pybrops/opt/algo/NSGA2RealGeneticAlgorithm.py", "            copy_termination = False,\n            seed = int.from_bytes(self.rng.bytes(4), \"little\")", "            copy_termination = False", "reverts fix af96815d for one optimiser")
+mut("c08-seed-from-global", "C08", "pybrops/opt/algo/IntegerGeneticAlgorithm.py", "seed = int.from_bytes(self.rng.bytes(4), \"little\")", "seed = int(numpy.random.randint(0, 2**31-1))", "pymoo seed taken from the global stream instead of self.rng")
+mut("c08-revert-selprot-rng", "C08", "pybrops/breed/prot/sel/SubsetSelectionProtocol.py", "                xconfig_decn = sosoln.soln_decn[0],\n                rng = self.rng", "                xconfig_decn = sosoln.soln_decn[0],\n                rng = None", "reverts fix 49bba688 at one site")
+mut("c08-hc-time-tiebreak", "C08", "pybrops/opt/algo/SteepestDescentSubsetHillClimber.py", "        gbest_soln = self.rng.choice(prob.decn_space, prob.ndecn)", "        import time\n        gbest_soln = self.rng.choice(prob.decn_space, prob.ndecn)\n        if int(time.time()) % 2: gbest_soln = gbest_soln[::-1].copy()", "start solution order depends on the wall clock")
+mut("c08-xconfig-cache", "C08", "pybrops/breed/prot/sel/cfg/SubsetSelectionConfiguration.py", "        outcross_shuffle(out, rng = self.rng)", "        outcross_shuffle(out, rng = self.rng if len(out) != 3 else None)", "three-cross configurations shuffled with the global stream")
+
 
 def run_one(m, runs, tier_args=()):
     scratch = "/dev/shm/pybrops-mut-%s-%d" % (m["id"], os.getpid())
